@@ -22,7 +22,7 @@ import synlib
 import treeio
 import parsergen
 
-THEOREMS = ["C01_prims_are_source", "C01_lossless_source", "C01_lossless", "C01_lossless_checked", "C01_lossless_any_program", "C01_prefix_any_program", "C01_lexer_lossless"]
+THEOREMS = ["C01_prims_are_source", "C01_lossless_source", "C01_parse_is_source", "C01_lossless_lib_parse", "C01_lossless", "C01_lossless_checked", "C01_lossless_any_program", "C01_prefix_any_program", "C01_lexer_lossless"]
 TRUSTED = [
     "tie of lexer.rs / preprocessor.rs / parser.rs: TRANSLATION + PROOF -- tools/translate/{t_lexer,t_prep,t_parser}.py render every function of the three files (shallow state-monad embedding, coq/model/{ScanMonad,PrepMonad,ParserMonad}.v = contracts of unscanny, Rust std, rowan GreenNodeBuilder) into gen/Gen{Lexer,Prep,Parser}.v on every run; proofs/Gen{Lexer,Prep,Parser}Eq.v prove the rendering equal to the hand models for all states/texts (C0x_prims_are_source); trusted for these files are therefore the translators and the three monad files, no longer the hand models Lexer.v / Prep.v / ParserPrims.v (still cross-checked by the differential run)",
     "Coq 8.16.1 kernel; vm_compute for the reflective obligation on the regenerated grammar (certificate check); no axioms (Print Assumptions: closed under the global context)",
@@ -31,7 +31,7 @@ TRUSTED = [
     "Coq extraction (ExtrOcamlBasic only) and the OCaml driver coq/extract/syntax_driver.ml",
     "Rust harness harness/src/bin/parsedump.rs, this Python driver and its oracle (lib/synlib.py: lossless_oracle)",
 ]
-TRANSLATORS = ["t_tokens", "t_lextables", "t_unicode", "t_grammar", "t_grammarcert", "t_lexer", "t_prep", "t_parser"]
+TRANSLATORS = ["t_tokens", "t_lextables", "t_unicode", "t_grammar", "t_grammarcert", "t_lexer", "t_prep", "t_parser", "t_libglue"]
 
 
 def corpus_files():
